@@ -279,7 +279,11 @@ func (c *Checker) Check(cs *Case, nontrivial func(*RunResult) bool) {
 
 // ---------- generators shared by all structures ----------
 
-type Gen struct{ R *rand.Rand }
+type Gen struct {
+	R     *rand.Rand
+	Small bool // keep states small (all-prefix sweeps are quadratic in the image size)
+	Tweak int // 0 none; k>0: change the k-th constructor parameter (used to build near-twins)
+}
 
 func (g *Gen) Intn(n int) int { return g.R.Intn(n) }
 func (g *Gen) Pick(xs ...int) int {
